@@ -24,6 +24,10 @@ type c02Flags struct {
 	InsightPort     int  `json:"insight_port"`
 	Passthrough     bool `json:"passthrough"`
 	PassthroughPort int  `json:"passthrough_port"`
+	// the default_server ports; ports 80 and 443 stay reserved whatever these are (every Ingress and
+	// VirtualServer server listens on 80/443)
+	DefaultHTTP  int `json:"default_http"`
+	DefaultHTTPS int `json:"default_https"`
 }
 
 type c02Listener struct {
@@ -63,6 +67,12 @@ func c02SetFlags(f c02Flags) {
 	*enablePrometheusMetrics, *prometheusMetricsListenPort = f.Metrics, f.MetricsPort
 	*enableServiceInsight, *serviceInsightListenPort = f.Insight, f.InsightPort
 	*enableTLSPassthrough, *tlsPassthroughPort = f.Passthrough, f.PassthroughPort
+	if f.DefaultHTTP != 0 {
+		*defaultHTTPListenerPort = f.DefaultHTTP
+	}
+	if f.DefaultHTTPS != 0 {
+		*defaultHTTPSListenerPort = f.DefaultHTTPS
+	}
 }
 
 func c02Validate(ls []conf_v1.Listener) ([]conf_v1.Listener, bool) {
@@ -80,7 +90,8 @@ func c02Probe(l conf_v1.Listener) bool {
 func c02Gen(r *vh.Rng, id int) c02Case {
 	c := c02Case{ID: id}
 	c.Flags = c02Flags{Status: r.Bool(), StatusPort: vh.Pick(r, []int{8080, 9000}), Metrics: r.Bool(), MetricsPort: vh.Pick(r, []int{9113, 5353}),
-		Insight: r.Bool(), InsightPort: vh.Pick(r, []int{9114, 8443}), Passthrough: r.Bool(), PassthroughPort: vh.Pick(r, []int{443, 8443, 9443})}
+		Insight: r.Bool(), InsightPort: vh.Pick(r, []int{9114, 8443}), Passthrough: r.Bool(), PassthroughPort: vh.Pick(r, []int{443, 8443, 9443}),
+		DefaultHTTP: vh.Pick(r, []int{80, 80, 8080}), DefaultHTTPS: vh.Pick(r, []int{443, 443, 8443})}
 	n := r.Intn(9)
 	for i := 0; i < n; i++ {
 		// mostly well-formed values on few ip:port pairs (so conflicts are common), plus a malformed stream
